@@ -59,6 +59,6 @@
 (let ((?x89 (- running_a!4 1)))
 (let (($x101 (= ?x89 (+ running_a!4 (- 1)))))
 (let (($x83 (= completed_a!2 (+ completed_a!2 0))))
-(let (($x104 (and $x83 (= (+ failed_a!3 1) (+ failed_a!3 1)) $x101 $x103)))
-(not $x104)))))))))
+(let (($x70 (and $x83 (= (+ failed_a!3 1) (+ failed_a!3 1)) $x101 $x103)))
+(not $x70)))))))))
 (check-sat)
